@@ -1363,6 +1363,9 @@ asn1c_lang_C_type_SIMPLE_TYPE(arg_t *arg) {
 		INDENT(-1);
 		OUT("}\n");
 		OUT("\n");
+	} else if(expr->combined_constraints && (arg->flags & A1C_GEN_PER)) {
+		/* The PER character map needs the alphabet table anyway */
+		asn1c_emit_constraint_tables_only(arg);
 	}
 
 	REDIR(OT_STAT_DEFS);
@@ -2930,6 +2933,11 @@ emit_member_table(arg_t *arg, asn1p_expr_t *expr, asn1c_ioc_table_and_objset_t *
 	INDENT(-1);
 	OUT("}\n");
 	OUT("\n");
+	} else if(arg->flags & A1C_GEN_PER) {
+		/* The PER character map needs the alphabet table anyway */
+		tmp_arg = *arg;
+		tmp_arg.expr = expr;
+		asn1c_emit_constraint_tables_only(&tmp_arg);
 	}
 
 	if(emit_member_OER_constraints(arg, expr, "memb"))
